@@ -207,6 +207,9 @@ FnFrames(kk) == IF kk = <<>> \/ Head(kk).f \in {"callret", "genret"} THEN <<>> E
 \* a loop that sits inside a try that sits inside another loop (same function)
 LoopInTryInLoop(rest) == LET fs == FnFrames(rest) IN
    \E i \in 1..Len(fs) : fs[i].f \in {"try", "catch"} /\ \E j \in (i + 1)..Len(fs) : fs[j].f \in LoopFrames
+TdzShadow(name) ==
+  LET e == FindEnv(heap, env, name) IN
+  e # NoEnv /\ ~heap[e].vars[VarIdx(heap, e, name)].init /\ FindEnv(heap, heap[e].outer, name) # NoEnv
 StepFeat ==
   IF ctl.m = "ret" /\ k # <<>> THEN
     LET f == Head(k)  c == ctl.c IN
@@ -217,6 +220,7 @@ StepFeat ==
           \cup (IF op \in {"==", "!="} /\ (IsPrim(f.l) # IsPrim(c.v)) THEN {"eq_obj_prim"} ELSE {})
           \cup (IF op \in {"+", "-", "*", "%"} /\ (~IsPrim(f.l) \/ ~IsPrim(c.v)) THEN {"arith_obj"} ELSE {})
      ELSE {})
+    \cup (IF f.f = "assign" /\ c.c = "normal" /\ TdzShadow(Nd(f.n).name) THEN {"tdz_shadow"} ELSE {})
     \cup (IF f.f = "popenv" /\ c.c \in {"break", "continue"} THEN {"brk_scope"} ELSE {})
     \cup (IF f.f = "catch" /\ c.c = "normal" /\ Nd(f.n).c # 0 THEN {"tcf_catch_normal"} ELSE {})
     \cup (IF f.f \in {"try", "catch"} /\ c.c \in {"break", "continue", "return"} /\ Nd(f.n).c # 0 THEN {"fin_abrupt"} ELSE {})
@@ -256,6 +260,8 @@ StepFeat ==
   ELSE IF ctl.m = "ev" THEN
     LET d == Nd(ctl.n) IN
     (IF d.ty = "try" /\ \E i \in 1..Len(k) : k[i].f = "fin" /\ k[i].pend.c # "normal" THEN {"fin_nested_try"} ELSE {})
+    \* a reference that resolves to a binding still in its temporal dead zone while an enclosing scope has a binding of that name
+    \cup (IF d.ty \in {"var", "typeofvar", "update"} /\ TdzShadow(d.name) THEN {"tdz_shadow"} ELSE {})
     \cup (IF d.ty = "this" /\ FindEnv(heap, env, "this") = NoEnv THEN {"toplevel_this"} ELSE {})
     \cup (IF d.ty = "this" /\ (\E i \in 1..Len(out) : out[i].e = "order") THEN {"this_after_suspend"} ELSE {})
     \cup
